@@ -81,6 +81,22 @@ def _uses(locs, classes):
                 if isinstance(par, ast.Subscript) and par.value is n and isinstance(par.ctx, ast.Store):
                     is_write = True
                 (writes if is_write else reads).setdefault(loc, []).append((rel, n.lineno, n, parents))
+        # a class-level mutable object is also shared when it is mutated through `self.<attr>` and no method of the class
+        # ever re-binds `self.<attr>` to a fresh per-instance object
+        for cdef in [x for x in tree.body if isinstance(x, ast.ClassDef) and x.name in classes]:
+            rebound = {t.attr for m in ast.walk(cdef) if isinstance(m, ast.Assign) for t in m.targets
+                       if isinstance(t, ast.Attribute) and isinstance(t.value, ast.Name) and t.value.id == "self"}
+            for attr, (rel_, line_, val) in classes[cdef.name].items():
+                if not _is_mutable_value(val) or attr in rebound:
+                    continue
+                loc = "%s.%s" % (cdef.name, attr)
+                for n in ast.walk(cdef):
+                    if isinstance(n, ast.Attribute) and n.attr == attr and isinstance(n.value, ast.Name) and n.value.id == "self":
+                        par = parents.get(n)
+                        w = (isinstance(par, ast.Subscript) and par.value is n and isinstance(par.ctx, (ast.Store, ast.Del))) or \
+                            (isinstance(par, ast.Attribute) and par.attr in MUTATORS and isinstance(parents.get(par), ast.Call)) or \
+                            (isinstance(par, ast.AugAssign) and par.target is n)
+                        (writes if w else reads).setdefault(loc, []).append((rel, n.lineno, n, parents))
     return writes, reads
 
 
@@ -194,11 +210,103 @@ def c10_inventory(tier, rng):
                          "required": "no state written by one experiment is readable by the next"})
         if len(samples) < 4:
             samples.append({"location": loc, "defined": "%s:%d" % locs[loc], "verdict": why})
+    # the options object (self.args) is shared by all experiments of an invocation: a per-experiment value stored into it must
+    # be derived from the experiment and from run-level settings, never from the value an earlier experiment stored there
+    try:
+        cdef = front.find_class("src/dataset_processor.py", "DatasetProcessor")
+        for m in [x for x in cdef.body if isinstance(x, ast.FunctionDef) and x.name != "__init__"]:
+            for n in ast.walk(m):
+                if isinstance(n, ast.Assign) and len(n.targets) == 1 and ast.unparse(n.targets[0]).startswith("self.args."):
+                    attr = ast.unparse(n.targets[0])
+                    obl += 1
+                    reads_self = any(isinstance(x, ast.Attribute) and ast.unparse(x) == attr for x in ast.walk(n.value))
+                    if reads_self:
+                        viol.append({"obligation": "C10.frame.args.%s.%s" % (m.name, attr.split(".")[-1]), "inputs": None,
+                                     "observed": "%s:%d  %s is computed from its own previous value" % ("src/dataset_processor.py", n.lineno, attr),
+                                     "required": "values stored in the shared options object do not depend on what an earlier experiment stored"})
+                    else:
+                        dis += 1
+                        if len(samples) < 6:
+                            samples.append({"location": attr, "defined": "DatasetProcessor.%s:%d" % (m.name, n.lineno),
+                                            "verdict": "re-derived for each experiment without reading its old value"})
+    except front.Missing as e:
+        obl += 1
+        viol.append({"obligation": "C10.frame.args", "inputs": None, "observed": str(e), "required": "DatasetProcessor present",
+                     "undecided": True})
     return {"obligations": obl, "discharged": dis, "violations": viol, "cases": obl, "exhaustive": True,
-            "bound": "all class-/module-level mutable bindings", "samples": samples}
+            "bound": "all class-/module-level mutable bindings + all writes to the shared options object in DatasetProcessor", "samples": samples}
 
 
-def _cli_history(threads=1):
+def _prepare_bams(d):
+    """derived inputs for the histories, written with pysam from the bundled chr9 data"""
+    import gzip, re, pysam
+    src = os.path.join(d, "chr9.4M.ont.sim.polya.bam")
+    inp = pysam.AlignmentFile(src)
+    recs = [a for a in inp if not a.is_unmapped and a.cigartuples]
+    # two disjoint halves (a multi-file experiment)
+    for k, name in enumerate(("half1.bam", "half2.bam")):
+        with pysam.AlignmentFile(os.path.join(d, name), "wb", template=inp) as out:
+            for idx, a in enumerate(recs):
+                if idx % 2 == k:
+                    out.write(a)
+        pysam.index(os.path.join(d, name))
+    # reads with a clear polyA / polyT tail only (a polyA-rich experiment)
+    with pysam.AlignmentFile(os.path.join(d, "polyaonly.bam"), "wb", template=inp) as out:
+        for a in recs:
+            s = a.query_sequence or ""
+            if s[-25:].count("A") >= 18 or s[:25].count("T") >= 18:
+                out.write(a)
+    pysam.index(os.path.join(d, "polyaonly.bam"))
+    # a polyA-free experiment: 25 reads of a novel 2-exon transcript with a GT..AG intron in a gene-free stretch
+    seq = "".join(l.strip() for l in gzip.open(os.path.join(d, "chr9.4M.fa.gz"), "rt") if not l.startswith(">"))
+    genes = []
+    for l in gzip.open(os.path.join(d, "chr9.4M.gtf.gz"), "rt"):
+        f = l.split("\t")
+        if len(f) > 4 and f[2] == "gene":
+            genes.append((int(f[3]), int(f[4])))
+    genes.sort()
+    covered_to = 0
+    lo = hi = None
+    for a, b in genes:
+        if covered_to and a - covered_to > 6000:
+            lo, hi = covered_to + 500, a - 500
+            break
+        covered_to = max(covered_to, b)
+    p = q = None
+    for m in re.finditer("GT", seq[lo + 600:hi]):
+        p0 = lo + 600 + m.start()
+        q0 = seq.find("AG", p0 + 700, p0 + 1500)
+        if q0 != -1 and q0 + 400 < hi:
+            p, q = p0 + 1, q0 + 2
+            break
+    tid = inp.get_tid("chr9")
+    import random
+    rng = random.Random(1)
+    out_recs = []
+    with pysam.AlignmentFile(os.path.join(d, "mono.bam"), "wb", template=inp) as out:
+        for k in range(25):
+            s_ = p - 1 - rng.randint(280, 320)
+            e_ = q + rng.randint(280, 320)
+            a = pysam.AlignedSegment(out.header)
+            a.query_name, a.flag, a.reference_id, a.reference_start, a.mapping_quality = "mono_%d" % k, 0, tid, s_ - 1, 60
+            a.cigartuples = [(0, p - s_), (3, q - p + 1), (0, e_ - q)]
+            a.query_sequence = seq[s_ - 1:p - 1] + seq[q:e_]
+            a.query_qualities = pysam.qualitystring_to_array("I" * len(a.query_sequence))
+            out_recs.append(a)
+        for a in sorted(out_recs, key=lambda x: x.reference_start):
+            out.write(a)
+    pysam.index(os.path.join(d, "mono.bam"))
+
+
+HISTORIES = {
+    # name: (experiment A files, experiment B files, data type)
+    "same_data": (["chr9.4M.ont.sim.polya.bam"], ["chr9.4M.ont.sim.polya.bam"], "nanopore"),
+    "single_then_multi_file": (["half1.bam"], ["half1.bam", "half2.bam"], "nanopore"),
+    "polya_rich_then_polya_free": (["polyaonly.bam"], ["mono.bam"], "pacbio_ccs"),
+}
+
+
+def _cli_history(threads=1, history="same_data"):
     """experiment B run after experiment A in one process must produce what a run of B alone produces"""
     import shutil, subprocess, sys, tempfile
     base = os.path.join(os.path.dirname(os.path.dirname(os.path.abspath(__file__))), ".run")
@@ -209,28 +317,33 @@ def _cli_history(threads=1):
         data = os.path.join(front.REPO, "tests", "simple_data")
         for f in ("chr9.4M.ont.sim.polya.bam", "chr9.4M.ont.sim.polya.bam.bai", "chr9.4M.gtf.gz", "chr9.4M.fa.gz"):
             shutil.copy(os.path.join(data, f), d)
-        open(os.path.join(d, "two.yaml"), "w").write('[\n data format: "bam",\n {name: "A", long read files: ["chr9.4M.ont.sim.polya.bam"]},\n'
-                                                     ' {name: "B", long read files: ["chr9.4M.ont.sim.polya.bam"]}\n]\n')
-        open(os.path.join(d, "one.yaml"), "w").write('[\n data format: "bam",\n {name: "B", long read files: ["chr9.4M.ont.sim.polya.bam"]}\n]\n')
+        fa, fb, dtype = HISTORIES[history]
+        if history != "same_data":
+            _prepare_bams(d)
+        q = lambda fs: ", ".join('"%s"' % f for f in fs)
+        open(os.path.join(d, "two.yaml"), "w").write('[\n data format: "bam",\n {name: "A", long read files: [%s]},\n'
+                                                     ' {name: "B", long read files: [%s]}\n]\n' % (q(fa), q(fb)))
+        open(os.path.join(d, "one.yaml"), "w").write('[\n data format: "bam",\n {name: "B", long read files: [%s]}\n]\n' % q(fb))
         env = dict(os.environ, HOME=os.path.join(d, "home"))
         os.makedirs(env["HOME"], exist_ok=True)
-        common = ["-d", "nanopore", "--genedb", "chr9.4M.gtf.gz", "--complete_genedb", "-r", "chr9.4M.fa.gz", "-t", str(threads)]
+        common = ["-d", dtype, "--genedb", "chr9.4M.gtf.gz", "--complete_genedb", "-r", "chr9.4M.fa.gz", "-t", str(threads)]
         for y, o in (("two.yaml", "out2"), ("one.yaml", "out1")):
             p = subprocess.run([sys.executable, os.path.join(front.REPO, "isoquant.py"), "--yaml", y, "-o", o] + common,
                                cwd=d, env=env, capture_output=True, text=True, timeout=600)
             if p.returncode != 0:
                 return ["isoquant exited %d on %s: %s" % (p.returncode, y, p.stderr[-300:])]
-        for name in ("B.transcript_models.gtf", "B.transcript_counts.tsv", "B.gene_counts.tsv", "B.read_assignments.tsv.gz",
-                     "B.transcript_model_counts.tsv", "B.read_assignments.tsv"):
+        names = sorted(f for f in os.listdir(os.path.join(d, "out1", "B")) if os.path.isfile(os.path.join(d, "out1", "B", f)))
+        for name in names:
             a, b = os.path.join(d, "out2", "B", name), os.path.join(d, "out1", "B", name)
-            if not os.path.exists(b):
-                continue
             if not os.path.exists(a):
                 problems.append("%s missing when B runs after A" % name)
                 continue
             opener = __import__("gzip").open if name.endswith(".gz") else open
-            la = [l for l in opener(a, "rt") if not l.startswith("#")]
-            lb = [l for l in opener(b, "rt") if not l.startswith("#")]
+            try:
+                la = [l for l in opener(a, "rt") if not l.startswith("#")]
+                lb = [l for l in opener(b, "rt") if not l.startswith("#")]
+            except Exception:
+                continue
             if la != lb:
                 problems.append("%s differs: %d lines after A vs %d lines alone" % (name, len(la), len(lb)))
     finally:
@@ -239,22 +352,23 @@ def _cli_history(threads=1):
 
 
 def replay_cli(d):
-    p = _cli_history(d["inputs"].get("threads", 1))
-    return (not p), "two experiments in one invocation (threads=%s): %s" % (d["inputs"].get("threads", 1), p or "B after A == B alone")
+    p = _cli_history(d["inputs"].get("threads", 1), d["inputs"].get("history", "same_data"))
+    return (not p), "history %s (threads=%s): %s" % (d["inputs"].get("history"), d["inputs"].get("threads", 1), p or "B after A == B alone")
 
 
-@bounded("C10.cli_history", ["C10"], note="history replay through the real CLI on the bundled chr9 data: a YAML with experiments A and B "
-         "(same BAM), --threads 1, against a run with B alone: B's transcript models and count tables must be identical "
-         "(thorough tier also --threads 2); bound: this one history")
+@bounded("C10.cli_history", ["C10"], note="history replays through the real CLI on the bundled chr9 data: a YAML with experiments A then B "
+         "against a run with B alone, every output file of B compared: (1) same BAM twice, (2) single-file then two-file experiment, "
+         "(3) polyA-rich then polyA-free experiment (-d pacbio_ccs); --threads 1 (thorough: also 2); bound: these three histories")
 def c10_cli(tier, rng):
     viol = []
     cases = 0
     for threads in ((1,) if tier == "quick" else (1, 2)):
-        cases += 1
-        p = _cli_history(threads)
-        if p:
-            viol.append({"obligation": "C10.cli_history", "inputs": {"threads": threads}, "observed": p[:4],
-                         "required": "experiment B's outputs do not depend on experiment A having run before it",
-                         "replay_call": "contracts.c_state:replay_cli"})
-    return {"cases": cases, "bound": "experiments A;B vs B alone, threads %s" % ("1" if tier == "quick" else "1 and 2"),
-            "violations": viol, "samples": [{"history": ["A", "B"], "threads": 1}]}
+        for h in HISTORIES:
+            cases += 1
+            p = _cli_history(threads, h)
+            if p:
+                viol.append({"obligation": "C10.cli_history.%s" % h, "inputs": {"threads": threads, "history": h}, "observed": p[:4],
+                             "required": "experiment B's outputs do not depend on experiment A having run before it",
+                             "replay_call": "contracts.c_state:replay_cli"})
+    return {"cases": cases, "bound": "%d histories (A then B vs B alone), threads %s" % (len(HISTORIES), "1" if tier == "quick" else "1 and 2"),
+            "violations": viol, "samples": [{"history": h, "A": HISTORIES[h][0], "B": HISTORIES[h][1]} for h in HISTORIES]}
